@@ -1,5 +1,5 @@
 import CryoCat.Drv.Proto
-import CryoCat.Model.C11
+import CryoCat.Model.C11_Bytes
 /-! C11 driver: voxels travel as IEEE-754 binary64 bit patterns (int8/int16/float32 values are
 exactly representable); `α := Nat` (the bit pattern), so equality is decidable. -/
 namespace CryoCat.Drv.C11
@@ -27,6 +27,97 @@ def negIn (t : DType) (b : Nat) : Nat :=
   | _ => if floatOfBits b == 0.0 then bitsOfFloat 0.0 else bitsOfFloat (-(floatOfBits b))
 
 def dflt : Nat := bitsOfFloat 0.0
+
+/-! ### bytes: the real files travel as hex strings; voxel values ↔ bit patterns on disk -/
+
+def hexVal (c : UInt8) : UInt8 := if c ≥ 97 then c - 87 else if c ≥ 65 then c - 55 else c - 48
+
+def bytesOfHex (s : String) : Array UInt8 :=
+  let b := s.toUTF8
+  (Array.range (b.size / 2)).map fun i => hexVal (b.get! (2 * i)) * 16 + hexVal (b.get! (2 * i + 1))
+
+def nanBits : Nat := 0x7FF8000000000000
+
+/-- the bit pattern on disk ↦ the voxel value as a binary64 pattern (every NaN ↦ the canonical one, as the
+harness does for what numpy returns): IEEE binary32/binary64, two's complement int8/int16, plain uint16 -/
+def ofWordC (c : Code) (w : Nat) : Nat :=
+  match c with
+  | .f32 => let x := (Float32.ofBits w.toUInt32).toFloat; if x.isNaN then nanBits else bitsOfFloat x
+  | .f64 => if (floatOfBits w).isNaN then nanBits else w
+  | .i16 => bitsOfFloat (Float.ofInt (if w ≥ 32768 then (w : Int) - 65536 else (w : Int)))
+  | .i8 => bitsOfFloat (Float.ofInt (if w ≥ 128 then (w : Int) - 256 else (w : Int)))
+  | .u16 => bitsOfFloat (Float.ofNat w)
+
+def ofWord (t : DType) (w : Nat) : Nat := ofWordC t.code w
+
+/-- the voxel value (a binary64 pattern holding a value of type `t`) ↦ its bit pattern on disk -/
+def toWord (t : DType) (b : Nat) : Nat :=
+  match t with
+  | .f32 => (floatOfBits b).toFloat32.toBits.toNat
+  | .f64 => b
+  | .i16 => ((floatOfBits b).toInt64.toInt % 65536).toNat
+  | .i8 => ((floatOfBits b).toInt64.toInt % 256).toNat
+
+def isNaNWord (c : Code) (w : Nat) : Bool :=
+  match c with
+  | .f32 => (w / 2 ^ 23) % 256 == 255 && w % 2 ^ 23 != 0
+  | .f64 => (w / 2 ^ 52) % 2048 == 2047 && w % 2 ^ 52 != 0
+  | _ => false
+
+/-- equal bit patterns, or two NaNs (sign and payload of a NaN are not voxel values) -/
+def sameWord (c : Code) (x y : Nat) : Bool := x == y || (isNaNWord c x && isNaNWord c y)
+
+def rawJson (r : Raw) : Json :=
+  Json.mkObj [("kind", Json.str (match r.kind with | .mrc => "mrc" | .em => "em")),
+              ("dims", Json.arr #[(r.nx : Json), (r.ny : Json), (r.nz : Json)]),
+              ("dtype", Json.str r.code.name), ("big_endian", Json.bool r.bigEndian),
+              ("data", Json.arr ((r.words.map (fun w => ((ofWordC r.code w : Nat) : Json))).toArray))]
+
+/-- why the verified decoders refuse these bytes (for the report only) -/
+def whyUndecodable (A : Array UInt8) : String :=
+  if [byteAt A 208, byteAt A 209, byteAt A 210, byteAt A 211] = [77, 65, 80, 32] then
+    if A.size < 1024 then "MRC: shorter than the 1024-byte header" else
+    match mrcStamp? (byteAt A 212) (byteAt A 213) with
+    | none => s!"MRC: machine stamp {(byteAt A 212).toNat} {(byteAt A 213).toNat}"
+    | some be =>
+      if (Code.ofMrcMode? (i32At be A 12)).isNone then s!"MRC: mode {i32At be A 12}"
+      else if (i32At be A 64, i32At be A 68, i32At be A 72) ≠ (1, 2, 3) then s!"MRC: mapc/r/s = {i32At be A 64} {i32At be A 68} {i32At be A 72}"
+      else s!"MRC: nx,ny,nz = {i32At be A 0} {i32At be A 4} {i32At be A 8}, mode {i32At be A 12}, nsymbt {i32At be A 92}: file size {A.size} is not header + nx*ny*nz voxels"
+  else
+    if A.size < 512 then "EM: shorter than the 512-byte header" else
+    match emMachine? (byteAt A 0) with
+    | none => s!"EM: machine byte {(byteAt A 0).toNat}"
+    | some be =>
+      if (Code.ofEmType? (byteAt A 3).toNat).isNone then s!"EM: type code {(byteAt A 3).toNat}"
+      else s!"EM: nx,ny,nz = {i32At be A 4} {i32At be A 8} {i32At be A 12}, type {(byteAt A 3).toNat}: file size {A.size} is not header + nx*ny*nz voxels"
+
+def rangeDiffers (A B : Array UInt8) (lo hi : Nat) : Bool :=
+  (List.range (hi - lo)).any fun t => byteAt A (lo + t) != byteAt B (lo + t)
+
+/-- the model's bytes against the real file's bytes: the header fields the statement is about, then the payload
+voxel by voxel (NaN ~ NaN).  Returns the names of the parts that differ. -/
+def bytesVsModel (model : Raw) (A : Array UInt8) (real : Option Raw) : List String :=
+  let M := (encode model).toArray
+  let hdr : List (String × Nat × Nat) := match model.kind with
+    | .mrc => [("nx,ny,nz", 0, 12), ("mode", 12, 16), ("mapc,mapr,maps", 64, 76), ("nsymbt", 92, 96), ("MAP", 208, 212), ("machine-stamp", 212, 213)]
+    | .em => [("machine", 0, 1), ("type-code", 3, 4), ("nx,ny,nz", 4, 16)]
+  let h := hdr.filterMap fun (n, lo, hi) => if rangeDiffers M A lo hi then some n else none
+  let sz := if M.size != A.size then [s!"file-size(model {M.size}, real {A.size})"] else []
+  let pl := match real with
+    | none => ["payload(undecodable)"]
+    | some r =>
+      if r.code != model.code || r.words.length != model.words.length then [] else
+      match (List.zip r.words model.words).findIdx? (fun (x, y) => !sameWord model.code x y) with
+      | some i => [s!"payload(first differing voxel at file position {i})"]
+      | none => []
+  h ++ sz ++ pl
+
+/-- a file given either as bytes (`raw`: hex; decoded here by the verified decoders, by content) or, for the
+harness's fallbacks, as an already parsed description -/
+def fileOfEntry (e : Json) : Option (MapFile Nat) :=
+  match getStr? e "raw" with
+  | some hx => (decodeByContent (bytesOfHex hx)).bind (Raw.toMapFile? ofWord)
+  | none => none
 
 def getBool? (j : Json) (k : String) : Option Bool := (j.getObjValAs? Bool k).toOption
 def getNats? (j : Json) (k : String) : Option (Array Nat) := (j.getObjValAs? (Array Nat) k).toOption
@@ -72,8 +163,15 @@ def parseFS (j : Json) : Option (FS Nat) := do
   let a ← getArr? j "fs"
   a.toList.mapM fun e => do
     let n ← getStr? e "name"
-    let f ← parseFile e
+    let f ← (match getStr? e "raw" with | some _ => fileOfEntry e | none => parseFile e)
     some (n.toList, f)
+
+/-- response fields about the real file's bytes `A` against the model's file `f` -/
+def bytesFields (f : MapFile Nat) (A : Array UInt8) : List (String × Json) :=
+  let dec := decodeByContent A
+  [("decoded", match dec with | some r => rawJson r | none => Json.null),
+   ("bytes_vs_model", Json.arr ((bytesVsModel (f.toRaw toWord) A dec).map Json.str).toArray)] ++
+  (match dec with | some _ => [] | none => [("decode_error", Json.str (whyUndecodable A))])
 
 def handle (j : Json) : Json :=
   match getStr? j "op" with
@@ -90,7 +188,12 @@ def handle (j : Json) : Json :=
       | .error e => errJson e
       | .ok f =>
         -- verified checkers on what the real code produced (optional fields "file", "back")
-        let chkW : List (String × Json) := match (j.getObjVal? "file").toOption >>= parseFile with
+        let rawA : Option (Array UInt8) := (getStr? j "raw").map bytesOfHex
+        -- the real file: its bytes through the verified decoders (or, for harness fallbacks, an already parsed description)
+        let realFile : Option (MapFile Nat) := match rawA with
+          | some A => (decodeByContent A).bind (Raw.toMapFile? ofWord)
+          | none => (j.getObjVal? "file").toOption >>= parseFile
+        let chkW : List (String × Json) := match realFile with
           | some fi => [("check_write", Json.bool (checkXFastest dflt (convW cast dataType src) a fi)),
                         ("check_write_dtype", Json.bool (decide (fi.dtype = outDType dataType src)))]
           | none => []
@@ -102,7 +205,16 @@ def handle (j : Json) : Json :=
         let back := match readKw cast dflt rname.toList f rtr rdt with
           | .ok (b, dt) => arrJson b dt
           | .error e => errJson e
-        Json.mkObj ([("file", fileJson f), ("arr", back)] ++ chkW ++ chkB)
+        let byt : List (String × Json) := match rawA with
+          | some A =>
+            -- the model's reader on the REAL bytes against what the real reader returned
+            let rb : List (String × Json) := match (j.getObjVal? "back").toOption >>= parseArr,
+                readBytesKw ofWord cast dflt rname.toList A rtr rdt with
+              | some (b, bdt), .ok (mb, mdt) => [("check_read_bytes", Json.bool (decide (mb = b) && decide (mdt = bdt)))]
+              | _, _ => []
+            bytesFields f A ++ rb
+          | none => []
+        Json.mkObj ([("file", fileJson f), ("arr", back)] ++ chkW ++ chkB ++ byt)
     | _, _ => err "bad-args"
   | some "convert" =>
     match getStr? j "which", parseFS j, getStr? j "map_name" with
@@ -119,15 +231,25 @@ def handle (j : Json) : Json :=
       | .ok fs' =>
         let outN := match outName cfg mapName.toList outOpt with | .ok n => n | .error _ => []
         -- verified checker on the file the real converter wrote (optional field "file")
-        let chk : List (String × Json) :=
-          match fs.lookup mapName.toList, (j.getObjVal? "file").toOption >>= parseFile with
+        let rawA : Option (Array UInt8) := (getStr? j "raw").map bytesOfHex
+        let realOut : Option (MapFile Nat) := match rawA with
+          | some A => (decodeByContent A).bind (Raw.toMapFile? ofWord)
+          | none => (j.getObjVal? "file").toOption >>= parseFile
+        -- the input file the harness made (decoded above from its bytes) holds the case's array, x fastest
+        let chkIn : List (String × Json) :=
+          match fs.lookup mapName.toList, (j.getObjVal? "in_arr").toOption >>= parseArr with
+          | some fin, some (a, adt) => [("check_input", Json.bool (checkXFastest dflt id a fin && decide (fin.dtype = adt)))]
+          | _, _ => []
+        let chk : List (String × Json) := chkIn ++
+          match fs.lookup mapName.toList, realOut with
           | some fin, some fout =>
             -- the statement: an omitted `invert` means no inversion (documented default)
             [("check_convert", Json.bool (checkConverted cast neg (inv.getD false) fin fout))]
           | _, _ => []
         match fs'.lookup outN with
         | some f => Json.mkObj ([("out_name", Json.str (String.ofList outN)), ("file", fileJson f),
-                                ("names", Json.arr (fs'.map (fun e => Json.str (String.ofList e.1))).toArray)] ++ chk)
+                                ("names", Json.arr (fs'.map (fun e => Json.str (String.ofList e.1))).toArray)] ++ chk
+                                ++ (match rawA with | some A => bytesFields f A | none => []))
         | none => err "model-lost-output"
     | _, _, _ => err "bad-args"
   | some "names" =>
